@@ -65,6 +65,9 @@ def judge(state, key, history_genuine_same):
         esc.append(f"decode_message_payload {what}")
         if own and (state is None or state == own):
             viol.append(f"genuine {own} message {key}: decode_message_payload {what} (state {state})")
+        elif acc:
+            # an exception / hang is not "the result of a decoder that accepts it"
+            viol.append(f"decode_message_payload {what} although {[names[i] for i in acc]} accept the payload")
         return viol, esc, state, False
     after = a.previous_success_decoder
     if res is None:
